@@ -276,6 +276,11 @@ func c04One(r *core.Run, sc scn, seed int64, f *fault) {
 		return
 	}
 	defer cl.Close()
+	if !o.Returned && o.StuckBusy {
+		r.Inconclusive(fmt.Sprintf("%s %s: Do still computing after the extended watchdog (no stuck state)", sc.Name, f))
+		o.Sim.Conn.Close()
+		return
+	}
 	if !o.Returned {
 		n, armed := o.StuckReaders, o.StuckArmed
 		if f.Gate == "no-deadline" && n > 0 && !armed {
@@ -350,7 +355,7 @@ func c04One(r *core.Run, sc scn, seed int64, f *fault) {
 	conn.Locked(func() { conn.WriteFailAfter = -1 }) // the write fault was transient
 	w0 := conn.WrittenBytes()
 	var perr error
-	ok := runWithWatchdog(10*time.Second, func() {
+	ok := runWithStuckWatchdog(10*time.Second, func() {
 		ctx, cancel := context.WithTimeout(context.Background(), 5*time.Second)
 		defer cancel()
 		perr = cl.Ping(ctx)
